@@ -50,6 +50,14 @@ for k, what in (("exp", "literals with an exponent and no dot (1e1000, 1E2, -2e-
                 ("int", "an integer literal is handed to Num::from_str_radix whole (sign included, nothing after it), in base 10, and that function's answer is returned (the integer parser itself is core / num-bigint, replaced by a ghost stub)")):
     ob(f"O-C07-parse-num-{k}", ["C07", "C05"] if k == "reject" else ["C07"], J, f"c07_parse_num_{k}", "parse_num (the JSON / XJON / CSV number reader) on literals run through hifijson's real slice lexer: " + what, ["jaq-json/src/read.rs::parse_num"], label="point", kind="point", composes_dependency=True, **({"stubs": ["from_str_radix"]} if k == "int" else {}))
 
+FU = "jaq-json/src/funs.rs::"
+ob("O-C12-contains-arr", ["C12"], J, "c12_contains_arrays", "Val::contains on arrays of integers at four points: every element of the argument is contained in some element of the input - also when the argument is longer than the input ([1,2] contains [1,1,2]); [3] is not contained; the empty array is contained in everything and contains only itself", [FU + "Val::contains"], label="point", kind="point")
+for k, what in (("arrays", "array argument: exactly the window positions i with .[i:][:len] == argument, overlapping matches included, the empty array nowhere"),
+                ("element", "non-array argument on an array: the positions of the equal elements"),
+                ("bytes", "byte strings: window positions counted in bytes, the empty string nowhere"),
+                ("text", "text strings with multi-byte characters: positions counted in characters, the empty string nowhere")):
+    ob(f"O-C12-indices-{k}", ["C12"], J, f"c12_indices_{k}", "Val::indices at points - " + what, [FU + "Val::indices"], label="point", kind="point")
+
 # ------------------------------------------------------------------------------------ C08
 ob("O-C08-float", ["C08"], J, "c08_float_cmp_order", "float_cmp is a total preorder on non-NaN floats (reflexive, antisymmetric, transitive over all triples), float_eq <=> Equal, and it agrees with IEEE <, ==, > (so -inf < finite < +inf, -0 == +0)", [NUM + "float_cmp", NUM + "float_eq"])
 for k, kinds in (("ii", "Int,Int"), ("if", "Int,Float"), ("fi", "Float,Int"), ("ff", "Float,Float")):
@@ -86,7 +94,7 @@ ob("O-C08-big-big", ["C08"], J, "c08_big_cmp_big", "two big integers of any valu
 ob("O-C08-big-inf", ["C08"], J, "c08_big_cmp_inf", "a big integer of any value up to 128 bits against +/-Infinity, in both argument orders: -Infinity < every integer < Infinity, never equal", [NUM + "Num::cmp", NUM + "Num::eq"], composes_dependency=True, tier="thorough", timeout=3000)
 ob("O-C08-val-strings", ["C08"], J, "c08_val_text_bytes_points", "points: a text string and a byte string with equal bytes are ==, ordered Equal in both directions and feed the hasher the same stream; different bytes order bytewise", [LIB + "Val::cmp", LIB + "Val::eq", LIB + "Val::hash"], label="point", kind="point", composes_dependency=True)
 ob("O-C08-val-kinds", ["C08"], J, "c08_val_kind_order_points", "points: Val::cmp follows the documented kind sequence null < false < true < numbers < strings < arrays on one representative per kind (49 ordered pairs); == holds only on the diagonal", [LIB + "Val::cmp", LIB + "Val::eq"], label="point", kind="point", composes_dependency=True)
-ob("O-C09-big-obs", ["C09", "C10"], J, "c09_big_observers", "for every big integer up to 128 bits: is_int; as_isize is Some(value) iff it fits a machine integer; as_pos_usize is (value >= 0, |value|) with zero non-negative, None beyond usize; a big integer that fits agrees with the machine integer of the same value (equal integers behave identically however stored)", [NUM + "Num::is_int", NUM + "Num::as_isize", NUM + "Num::as_pos_usize"], composes_dependency=True)
+ob("O-C09-big-obs", ["C09", "C10", "C05"], J, "c09_big_observers", "for every big integer up to 128 bits: is_int; as_isize is Some(value) iff it fits a machine integer; as_pos_usize is (value >= 0, |value|) with zero non-negative, None beyond usize; a big integer that fits agrees with the machine integer of the same value (equal integers behave identically however stored)", [NUM + "Num::is_int", NUM + "Num::as_isize", NUM + "Num::as_pos_usize"], composes_dependency=True)
 ob("O-C09-from-integral", ["C09", "C14"], J, "c09_from_integral", "Num::from_integral / Val::from(usize): a machine integer when the value fits, else the big integer of exactly that value, for every u64, i128 and usize", [NUM + "Num::from_integral", LIB + "Val::from<usize>"], composes_dependency=True)
 ob("O-C09-saturate", ["C09", "C05"], J, "c09_bigint_saturated", "bigint_to_int_saturated (string repetition by a big integer): the value clamped into the machine-integer range, for every big integer up to 128 bits", [LIB + "bigint_to_int_saturated"], composes_dependency=True)
 ob("O-C09-big-mul", ["C09"], J, "c09_big_mul_points", "points: isize::MIN * -1 through the fall-back is 2^63; 3 * big 5, big 5 * -3, big -5 * big -3 are the products (the fall-back closure of * multiplies)", [NUM + "Num::mul", NUM + "int_or_big"], label="point", kind="point", composes_dependency=True, stubs=["_addcarry_u64", "_subborrow_u64"])
